@@ -13,8 +13,8 @@ enum Ty {
     Arr(Box<Ty>),
 }
 
-const TYPES6: [&str; 8] = ["I", "[J", "La/b;", "LI;", "Lx/Long;", "[[L\u{e9}/\u{dc};", "La/b$b;", "La/b$;"];
-const TYPES8: [&str; 10] = ["I", "[J", "La/b;", "LI;", "Lx/Long;", "[[L\u{e9}/\u{dc};", "Z", "[La/b;", "La/b$b;", "La/b$;"];
+const TYPES6: [&str; 10] = ["I", "[J", "La/b;", "LI;", "Lx/Long;", "[[L\u{e9}/\u{dc};", "La/b$b;", "La/b$;", "Ljava/util/a;", "[[Ljavax/inject/b;"];
+const TYPES8: [&str; 12] = ["I", "[J", "La/b;", "LI;", "Lx/Long;", "[[L\u{e9}/\u{dc};", "Z", "[La/b;", "La/b$b;", "La/b$;", "Ljava/util/a;", "[[Ljavax/inject/b;"];
 pub const EDIT_CHARS: [char; 10] = ['(', ')', 'L', ';', '[', 'I', 'V', '\u{e9}', '/', 'x'];
 
 fn prim_name(c: char) -> Option<&'static str> {
@@ -121,7 +121,7 @@ fn expected(s: &str, model: &Model) -> Result<OSig, Bad> {
 fn sig_mappings() -> Vec<(&'static str, Vec<Line>)> {
     vec![
         ("empty", vec![]),
-        ("S1 (maps a.b, I, \u{e9}.\u{dc})", vec![class("orig.Mapped", "a.b"), class("orig.PrimI", "I"), class("o.Umlaut", "\u{e9}.\u{dc}"), method(None, None, "p", "", Orig::None, "m")]),
+        ("S1 (maps a.b, I, \u{e9}.\u{dc})", vec![class("orig.Mapped", "a.b"), class("orig.PrimI", "I"), class("o.Umlaut", "\u{e9}.\u{dc}"), method(None, None, "p", "", Orig::None, "m"), class("com.example.ShimOne", "java.util.a"), class("com.example.ShimTwo", "javax.inject.b")]),
         ("S2 (maps near misses only)", vec![class("q.One", "a.bb"), class("q.Two", "a"), class("q.Three", "x.Lon"), class("q.Four", "a/b")]),
     ]
 }
@@ -215,6 +215,13 @@ fn descriptors(types: &[&str], max_params: usize) -> Vec<String> {
     for s in crate::props::c13::long_signatures() {
         if s.len() < 3000 {
             v.push(s);
+        }
+    }
+    // parameter COUNTS around 127/128 and 255/256 for one- and two-slot types and their arrays
+    for n in [126usize, 127, 128, 129, 254, 255, 256] {
+        for ty in ["J", "D", "[J", "[D", "[[D", "La/b;", "[I"] {
+            v.push(format!("({})V", ty.repeat(n)));
+            v.push(format!("(I{}Lx/Long;)[J", ty.repeat(n)));
         }
     }
     v
@@ -329,7 +336,7 @@ pub fn run(tier: Tier) -> i32 {
         prop: "C16",
         tier,
         level: "model_checking",
-        rule: format!("all {} descriptors with <= {} parameters over the type alphabet (primitive, primitive array, mapped object, object named like a primitive, unmapped object containing 'L', nested non-ASCII object array, unmapped names a/b$b and a/b$ whose '$'-prefix is mapped{}), plus array dimensions / parameter counts / name lengths of 127..257 and 1000 x every return type incl. V, plus 4..6 parameters of one type; every single-character deletion, substitution and insertion (10-character alphabet) of each; all strings of <= {} characters over that alphabet; x 3 mappings x {{mapper, cache}}. Oracle: an independent JVM-descriptor parser + R14 (valid => exact parameter list, return type and formatted signature; no parenthesised list / no return type / unterminated object type => none; otherwise only mapper == cache and no panic). distinct = distinct expected results", ndesc, if t { 4 } else { 3 }, if t { ", Z, object array" } else { "" }, strdepth),
+        rule: format!("all {} descriptors with <= {} parameters over the type alphabet (primitive, primitive array, mapped object, object named like a primitive, unmapped object containing 'L', nested non-ASCII object array, unmapped names a/b$b and a/b$ whose '$'-prefix is mapped, mapped classes whose obfuscated name lies in java. / javax.{}), plus array dimensions / parameter counts / name lengths of 127..257 and 1000 x every return type incl. V, plus 4..6 parameters of one type; every single-character deletion, substitution and insertion (10-character alphabet) of each; all strings of <= {} characters over that alphabet; x 3 mappings x {{mapper, cache}}. Oracle: an independent JVM-descriptor parser + R14 (valid => exact parameter list, return type and formatted signature; no parenthesised list / no return type / unterminated object type => none; otherwise only mapper == cache and no panic). distinct = distinct expected results", ndesc, if t { 4 } else { 3 }, if t { ", Z, object array" } else { "" }, strdepth),
         bounds: json!({"descriptors": ndesc, "string_depth": strdepth, "edit_alphabet": EDIT_CHARS.iter().map(|c| c.to_string()).collect::<Vec<_>>(), "mappings": sig_mappings().iter().map(|(l, m)| json!({"label": l, "text": esc(&print_file(m, Term::Lf))})).collect::<Vec<_>>()}),
         assumptions: vec!["a class name inside L...; may not contain [ . ( ) (JVM spec + parenthesis-free so that the parameter list is unambiguous); such strings get no claim".into()],
         trusted_base: vec!["rustc/std".into(), "descriptor parser and R14 in pgmc/src/props/c16.rs".into(), "reference model pgmc/src/model.rs (class lookup R8)".into()],
